@@ -23,13 +23,14 @@ def run(ctx):
     monitor.enable(*monitors(ctx))
     from .. import w_suite
     w_suite.maybe(ctx)      # thorough tier: the repository's own tests under this property's monitors
-    from .. import w_misc
-    w_misc.drive_session(ctx, ctx.tier)   # long-lived signature objects through many operations
+    from .. import w_misc, core
     ctx.floor('C03.mask_calls', 2000)
     ctx.floor('C03.order_checked', 200)
     ctx.floor('C03.flag_soundness', 200)
     ctx.floor('C03.duplicate_names', 100)
-    w_alg.drive_mask(ctx, ctx.tier, dup=True)
+    core.run_slices(ctx, [
+        (8, lambda: w_alg.drive_mask(ctx, ctx.tier, dup=True)),
+        (1, lambda: w_misc.drive_session(ctx, ctx.tier))])    # long-lived signature objects through many operations
 
 
 def replay(ctx, rec):
